@@ -41,6 +41,7 @@ Inductive case :=
 | CDL (k : lk) (ops : list dop) (obs : list obs)
 (** concurrent direct callers of one processor: exporter shutdowns seen, error classes returned *)
 | CDStorm (hasx : bool) (xshut : N) (errs : list err)
+| CDStorm2 (hasx : bool) (at_return : list N) (late : N) (errs : list err)
 (** one metric reader used directly and through [reg] providers *)
 | CR (r : rk) (reg : N) (ops : list rop) (obs : list obs)
 (** failing processors: ids for which ForceFlush and Shutdown report an error *)
@@ -173,6 +174,8 @@ Definition check_case (c : case) : list N :=
       flag (Nat.eqb (length ops) (length obs) && dspec_ok (has_std k) (combine ops obs)) V_SPECFAIL
   | CDStorm hasx xs errs =>
       flag (dstorm_ok hasx (n2 xs) errs) V_SPECFAIL
+  | CDStorm2 hasx ar late errs =>
+      flag (dstorm2_ok hasx (map n2 ar) (n2 late) errs) V_SPECFAIL
   | CR r reg ops obs =>
       let m := rrun r (n2 reg) rinit ops in
       flag (obs_list_eqb (map snd m) obs) V_MISMATCH ++
